@@ -341,8 +341,6 @@ def do_job(prop, job, tier, seed, keep):
         unrep = []
         ubn = [f for f in c['failed'] if f[1] == 'UBNOTE']
         if ubn: r['notes'].append({'standard_level_UB_not_confirmable_by_sanitizers': [(f[0][-70:], f[2]) for f in ubn[:6]]})
-        unk = [nm for nm, p in c.get('unknown', [])]
-        if unk: raise Inconclusive('%d properties left UNKNOWN by cbmc (after a fatal built-in check failed): %s' % (len(unk), unk[:3]))
         for nm, cls, desc in c['failed']:
             if cls not in ('PROP', 'SAFETY'): continue
             vals = c['traces'].get(nm)
@@ -351,6 +349,9 @@ def do_job(prop, job, tier, seed, keep):
             bad, rc, out = replay(wd, vals, path)
             if bad: r['violations'].append({'source': 'cbmc counterexample', 'cbmc_property': nm, 'class': cls, 'desc': desc, 'inputs': vals, 'replay': path, 'replay_out': out[-600:]})
             else: unrep.append((nm, desc, 'inputs %s do not reproduce on the real build: %s' % (vals, out.strip()[-200:])))
+        unk = [nm for nm, p in c.get('unknown', [])]
+        if unk and not r['violations']:
+            raise Inconclusive('%d properties left UNKNOWN by cbmc (after a fatal built-in check failed) and no failure reproduced on the real build: %s; unreproduced: %s' % (len(unk), unk[:2], unrep[:2]))
         if unrep and not r['violations']:
             ubonly = all('pointer' in d and ('arithmetic' in n or 'pointer_arithmetic' in n) for n, d, _ in unrep)
             if ubonly: r['notes'].append({'unreproduced_pointer_arithmetic_only': unrep})
